@@ -83,8 +83,8 @@ static const Op OPS[] = {
   OPZ(mpz_divisible_p, "=ZZ", true, RI(mpz_divisible_p(Z0, Z1) != 0), 0), OPZ(mpz_divisible_ui_p, "=Z", true, RI(mpz_divisible_ui_p(Z0, U0) != 0), 0), OPZ(mpz_divisible_2exp_p, "=Z", true, RI(mpz_divisible_2exp_p(Z0, bc(a, 300)) != 0), 0),
   OPZ(mpz_congruent_p, "=ZZZ", true, RI(mpz_congruent_p(Z0, Z1, Z2) != 0), 0), OPZ(mpz_congruent_ui_p, "=Z", true, RI(mpz_congruent_ui_p(Z0, U0, a.u[2]) != 0), 0), OPZ(mpz_congruent_2exp_p, "=ZZ", true, RI(mpz_congruent_2exp_p(Z0, Z1, bc(a, 300)) != 0), 0),
   // ---- powers, roots ---------------------------------------------------------------------------------------------
-  OPZ(mpz_powm, "Z=ZZZ", znz(Z3) && Z2->_mp_size >= 0 && CAP(Z2, 6) && CAP(Z3, 40) && CAP(Z1, 80), mpz_powm(Z0, Z1, Z2, Z3), 0),
-  OPZ(mpz_powm_ui, "Z=ZZ", znz(Z2) && CAP(Z2, 40) && CAP(Z1, 80), mpz_powm_ui(Z0, Z1, U0 >> 20, Z2), 0),
+  OPZ(mpz_powm, "Z=ZZZ", znz(Z3) && Z2->_mp_size >= 0 && CAP(Z2, 6) && CAP(Z3, 260) && (CAP(Z3, 40) || CAP(Z2, 2)) && CAP(Z1, 300), mpz_powm(Z0, Z1, Z2, Z3), 0),   /* moduli up to 260 limbs (REDC_n with odd sizes 101..255) with exponents of at most 2 limbs */
+  OPZ(mpz_powm_ui, "Z=ZZ", znz(Z2) && CAP(Z2, 260) && CAP(Z1, 300), mpz_powm_ui(Z0, Z1, U0 >> 20, Z2), 0),
   OPZ(mpz_pow_ui, "Z=Z", zl(Z1) * (U0 % 40) <= 400, mpz_pow_ui(Z0, Z1, U0 % 40), 0), OPZ(mpz_ui_pow_ui, "Z=", true, mpz_ui_pow_ui(Z0, U0, a.u[2] % 60), 0),
   OPZ(mpz_sqrt, "Z=Z", Z1->_mp_size >= 0, mpz_sqrt(Z0, Z1), 0), OPZ(mpz_sqrtrem, "ZZ=Z", Z2->_mp_size >= 0, mpz_sqrtrem(Z0, Z1, Z2), 0),
   OPZ(mpz_root, "Z=Z", (Z1->_mp_size >= 0 || ((U0 % 9 + 1) & 1)), RI(mpz_root(Z0, Z1, U0 % 9 + 1) != 0), 0), OPZ(mpz_nthroot, "Z=Z", (Z1->_mp_size >= 0 || ((U0 % 9 + 1) & 1)), mpz_nthroot(Z0, Z1, U0 % 9 + 1), 0),
